@@ -2,7 +2,7 @@
 """Development aid (not a registered check): which lines of the functions a
 property is anchored in does the engine's workload never execute?
 
-    tools/cover.py PROP [--runs N] [--seed N] [--tier quick|thorough] [--all]
+    tools/cover.py PROP[,PROP...] [--runs N] [--seed N] [--tier quick|thorough] [--all]
 
 Runs N simulated runs of the property's engine *in this process* (no pool, no
 forked children - the ISOLATE engines fork per run, so for them the runs are
@@ -55,21 +55,23 @@ def main():
     sys.path.insert(0, repo)
     from rigsim import runner, engines_registry
     from rigsim.core import Tape, derive_seed
-    engine = engines_registry.get(engines_registry.PROPERTY_ENGINE[a.prop])
+    props = a.prop.split(",")
     cov.start()
     bad = 0
-    for i in range(a.runs):
-        o = runner.execute(engine, a.prop, a.tier,
-                           Tape(seed=derive_seed(a.seed, a.prop, i)), index=i,
-                           known=runner.load_known_findings())
-        if o.violation is not None or o.harness_error is not None:
-            bad += 1
+    anchors = []
+    for prop in props:
+        engine = engines_registry.get(engines_registry.PROPERTY_ENGINE[prop])
+        for i in range(a.runs):
+            o = runner.execute(engine, prop, a.tier,
+                               Tape(seed=derive_seed(a.seed, prop, i)),
+                               index=i, known=runner.load_known_findings())
+            if o.violation is not None or o.harness_error is not None:
+                bad += 1
+        for line in open(os.path.join(VERIF, "properties.jsonl")):
+            d = json.loads(line)
+            if d["id"] == prop:
+                anchors += d["anchors"]["files"]
     cov.stop()
-    anchors = None
-    for line in open(os.path.join(VERIF, "properties.jsonl")):
-        d = json.loads(line)
-        if d["id"] == a.prop:
-            anchors = d["anchors"]["files"]
     data = cov.get_data()
     print("%s: %d runs in-process (%d with a violation / harness error: "
           "isolation is off here)" % (a.prop, a.runs, bad))
